@@ -4,5 +4,9 @@ MORE = {
          "Aggregator.tla (one action per _ingest_* method, Finalize a pure query) is explored by TLC over four record universes with StateIsFoldOfSet / PrefixVerdict / LaunchRollup as invariants, and the verdicts of every subset are emitted as an oracle table; real runtime records are ingested into the real TraceAggregator in every order (all 720 / 40320 orders of the 6- and 8-record universes, sampled beyond) with finalize twice after every ingest and compared with the table; recorded histories (prefixes, permutations, k-way interleavings, subsets of random real traces) are batch-validated by TLC.",
          "one SER per node, attempt = 1; launches emulated by driving RunSpaceTraceEmitter/Pipeline as cli._run does",
          "TLA+ spec + TLC (subset lattice exhaustive); permutation replay against TLC's oracle table; TLC trace validation of recorded aggregator histories"),
+ "C14": ("TransportImpl.tla (PlusCal) / Transport.tla / TransportTrace.tla",
+         "TransportImpl.tla models publish() and the subscription iterator one label per source line with queue objects in a heap (orphaned deques are expressible); TLC explores all interleavings of 2-3 publishers, 0-1 concurrent subscribers and the drainer with NoLoss/NoDup/PublisherChannelFifo/MatchOnly, and the unsynchronised-creation variant must violate NoLoss. The real unmodified transport is executed under a deterministic line-level scheduler (all 2^L choice prefixes of the creation race, seeded random schedules for six scenarios incl. exact, wildcard and prefix patterns); every append/popleft is logged at its linearization point and each history is validated by TLC against the abstract queue spec with the drained post-condition.",
+         "line granularity = sys.settrace events in in_memory.py; atomicity of dict/deque C primitives under the GIL assumed; cooperative locks replace threading.Lock inside the module",
+         "PlusCal line-level model + TLC; deterministic schedule exploration of the real code; TLC trace validation of recorded histories"),
 }
 NA = {}
